@@ -64,6 +64,11 @@ def mk(rng, keys, vals, sel, entry=None, param=None, beta=None):
         c["tunit"] = rng.pick(["ns", "ns", "us", "s"])
         c["tcont"] = rng.pick(["np", "index", "series", "tz"])
         c["tbase"] = rng.pick(["2024-01-01", "2024-01-01", "1969-12-31T23:59:50", "1970-01-01"])
+        if rng.random() < 0.4:
+            # a halflife that is not a whole number of the timestamps' ticks: 500 ms against times in whole seconds
+            # (carried in s / us / ns) halves the weight twice per second: beta = 1/4 per abstract time step
+            c["hl"], c["beta"] = rng.pick(["500ms", "0.5s"]), "1/4"
+            c["times"] = [min(x, 7) for x in c["times"]]        # (4^elapsed must stay within TLC's 32-bit integers)
     if entry == "gb":
         c["kenc"] = rng.pick(["f64", "str", "M8"]) if NULL in keys else rng.pick(["f64", "i64", "str", "cat"])
         c["vcont"] = rng.pick(["np", "series"])
